@@ -29,19 +29,25 @@ RULE = ("mostly exhaustive small products over literal tables taken from the KMI
         "unsupported) x one valid request per operation through the decoder+engine, the real "
         "session loop and (unsupported versions) the engine interface; (b) 53 operations x 6 "
         "versions x {native encoding, encoding of the introduction version}; (c) 18 later "
-        "attributes (+2 controls) x 6 versions x 7 carriers, and attribute reads of objects "
+        "attributes (+2 controls) x 6 versions x 8 carriers (Create, Register, CreateKeyPair x3, "
+        "DeriveKey, ModifyAttribute, Locate), and attribute reads of objects "
         "carrying Sensitive / Operation Policy Name under every version; (d1) every row of "
         "vlib/codec_table.py x version, one out-of-interval field at a time (Hypothesis values), "
         "(d3) every ProxyKmipClient method x version against the real server, (d4) a menu of "
         "over-specified requests x version; (e) Hypothesis client lists for DiscoverVersions "
         "(supported/unsupported mixtures, duplicates, any order) x request version; (f) Query x "
-        "version x function set, then one minimal valid request per advertised operation. Every "
-        "server response is parsed by ttlvref and scanned for tags of later versions. "
-        "non-trivial = the cell lies on a gate boundary: the request version equals the "
+        "version x function set, then one minimal valid request per advertised operation; (d2) the "
+        "shared request menus of vlib.menus x version (quick: every 8th entry, offset by the seed). "
+        "Below its version an operation is also handed to the engine interface directly (codec "
+        "bypassed). Every server response is parsed by ttlvref and scanned for tags of later "
+        "versions. non-trivial = the cell lies on a gate boundary: the request version equals the "
         "introduction (or removal) version of the operation / attribute / field under test or is "
-        "the supported version just below it; for (a) unsupported versions adjacent to a supported "
-        "one (0.9, 1.5, 1.9, 2.1) and every supported version; for (e) lists mixing accepted and "
-        "refused versions; distinct by canonical spec hash")
+        "the supported version just below it (d3: also 1.4 and 2.0 for calls that carry attributes "
+        "- the Template-Attribute / Attributes switch; f: every version is the boundary of some "
+        "advertised operation's gate); for (a) and the acceptance probes every supported version "
+        "and the unsupported versions adjacent to one (0.9, 1.5, 1.9, 2.1); for (e) lists mixing "
+        "accepted and refused versions; distinct by canonical spec hash; counts per part in "
+        "boundary_cells_per_part")
 ASSUMPTIONS = [
     "introduction / removal versions are literal tables in vlib/c16_tables.py copied from the "
     "KMIP specifications 1.0-2.0 (tag blocks of the tag table, operation and attribute chapters)",
@@ -401,11 +407,16 @@ def run_a(spec):
         data = request_bytes(spec)
     except Exception:
         native = False
-        if v not in SUP:
-            return [], False, classes + ["a:unencodable"]
-        try:                        # body written by the rules of the operation's own version
-            data = request_bytes(dict(spec, enc=list(max(since, v))))
-        except Exception:
+        data = None
+        # body written by the rules of another version (the header keeps v): the operation's own
+        # version, or - unknown version numbers - whichever supported rule set can write it
+        for enc in ([max(since, v)] if v in SUP else [S.V20, since]):
+            try:
+                data = request_bytes(dict(spec, enc=list(enc)))
+                break
+            except Exception:
+                continue
+        if data is None:
             return [], False, classes + ["a:unencodable"]
         classes.append("a:transplanted-encoding")
     if v in SUP:
@@ -491,12 +502,27 @@ def run_b(spec):
     nt = _boundary(v, since)
     rel = "below" if v < since else "at-or-above"
     classes = ["b:%s:%s" % (op, rel)]
+    buckets = []
+    if v < since and "item" in spec and spec.get("enc") == spec["v"]:
+        # the engine's own gate, codec bypassed (the decoder may refuse the payload first, e.g.
+        # SetAttribute below 2.0): a decoded request object handed to process_request
+        try:
+            req_obj = H.build_request({"v": list(v), "items": [spec["item"]]})
+        except Exception:
+            req_obj = None
+        if req_obj is not None:
+            o2 = exchange(None, "engine", req_obj=req_obj)
+            ev = executed_evidence(o2)
+            if ev:
+                buckets.append(("C16|op-gate|%s|executed-below-version" % op,
+                                "%s (KMIP %s) handed to the engine under KMIP %s: %s handlers=%s diff=%s"
+                                % (op, S.vs(since), S.vs(v), ev, o2.handlers, o2.changed)))
+            classes.append("b:below:engine-" + ("EXECUTED" if ev else "refusal"))
     try:
         data = request_bytes(spec)
     except Exception as e:
-        return [], nt, classes + ["b:unencodable-" + type(e).__name__]
+        return buckets, nt, classes + ["b:unencodable-" + type(e).__name__]
     o = exchange(data, "process")
-    buckets = []
     if o.resp is not None:
         buckets += tag_problems(o.resp, v, "server-response")
     if v < since:
@@ -930,7 +956,9 @@ def d1_worker(units, n, seed, names=()):
             spec = {"part": "d1", "cls": name, "v": v, "field": field,
                     "value": {"cls": value["cls"], "fields": value["fields"]}}
             b, nt, cl = run_d1(spec)
-            col.record(spec, nontrivial=nt, classes=cl, buckets=b)
+            if nt:
+                col.bump("boundary_cells:d1")
+            col.record(spec, nontrivial=nt, classes=["part:d1"] + cl, buckets=b)
         try:
             core.draw_examples(CT.strategy_for(name, tuple(v), over_specified=True, probe_rate=0),
                                n, core.derive_seed(seed, name, tuple(v), field), one)
@@ -1248,7 +1276,10 @@ def grid_worker(shard, nshards, stride=0, offset=0):
         if i % nshards != shard:
             continue
         b, nt, cl = run_case(spec)
-        col.record(spec, nontrivial=nt, classes=["part:" + spec["part"]] + cl, buckets=b)
+        part = "d2" if spec.get("label", "").startswith("menu:") else spec["part"]
+        if nt:
+            col.bump("boundary_cells:" + part)
+        col.record(spec, nontrivial=nt, classes=["part:" + part] + cl, buckets=b)
     return col
 
 
@@ -1261,6 +1292,8 @@ def e_worker(n, seed):
                         "newest first (confirmed defect: DiscoverVersions echoes the client's "
                         "order); the any-order path (1 in 8) keeps reaching it")
         b, nt, cl = run_case(spec)
+        if nt:
+            col.bump("boundary_cells:e")
         col.record(spec, nontrivial=nt, classes=["part:e"] + cl, buckets=b)
 
     core.draw_examples(gen_e(), n, seed, one)
@@ -1301,5 +1334,7 @@ def run(ctx):
                                                          else "complete")),
         "e": "NOT exhaustive: %d Hypothesis client lists" % ne,
         "f": "6 versions x %d function sets x advertised operations" % len(F_FUNCTIONS)}
-    col.extra["boundary_cells"] = len(col.nontrivial)
+    col.extra["boundary_cells_per_part"] = {k.split(":", 1)[1]: col.extra.pop(k)
+                                            for k in sorted(col.extra) if k.startswith("boundary_cells:")}
+    col.extra["boundary_cells_distinct"] = len(col.nontrivial)
     return col
